@@ -143,6 +143,19 @@ CLAIMED["C14"] = ("model_checking",
     "TLA+ abstract map spec + TLC closed graph; transitions replayed into the real hash_map under several hash functions; all lookups validated by TLC",
     "Hash", "5 C14")
 
+CLAIMED["C17"] = ("model_checking",
+    "HolderOps.tla is the semantics of std::optional / std::expected / std::variant (with a valueless state) / a "
+    "storage-plus-flag box, as operations on <<tag, value>> pairs. TLC explores the closed product graph destination "
+    "state x source state x operation (construct from value/null/error, copy, move, copy-/move-/converting/null/"
+    "value assignment, emplace, initialize/destruct) for each holder; every transition and random operation sequences "
+    "are replayed on the frigg type with trivial, Tracked and move-only elements NEXT TO the standard type; "
+    "HoldersTrace.tla requires the state and value read through frigg's accessors to equal the specification (and "
+    "the specification to equal the standard type, else the check reports a specification error). tuple "
+    "get/apply/tuple_cat/converting construction/reference identity are checked as sequence equalities.",
+    "bounds: two holder variables, values {1,2}, three alternatives; copy-only elements are not instantiated; tuple shapes fixed",
+    "TLA+ semantics spec + TLC closed product graph; transitions replayed into the real types beside the std types; states validated by TLC",
+    "Val", "5 C17")
+
 NOT_YET = "check not built yet in this round (see DESIGN.md build order); not claimed until its TLA+ spec and conformance harness exist"
 
 checks, na = [], []
